@@ -10,7 +10,7 @@
       interleaved with oracle messages) the oracle projection satisfies [run_wfb] - the hypothesis
       of the C17 theorems about values. *)
 From Irismod Require Import Oracle.Model Oracle.Check Oracle.ProofsList Oracle.Proofs.
-From Irismod Require Service.Model Service.ProofsSched Service.ProofsBatch Oracle.LinkService.
+From Irismod Require Service.Model Service.ProofsSched Service.ProofsBatch Service.ProofsModuleHist Oracle.LinkService.
 From Coq Require Import ZifyBool.
 Open Scope Z_scope.
 
@@ -194,7 +194,7 @@ Proof.
   - destruct Hwf as [Hfresh Hm].
     destruct (L.goodl_step c ss st Hfresh (proj2 HS) (L.mbrun ss) (fun i => eq_refl)) as [Hok Hag].
     destruct (transfer nu now Hinj _ _ Hm (L.mbrun ss) os HI HA Hok) as (Hw & HI' & HA').
-    split; [exact Hw|]. split; [apply Irismod.Service.ProofsBatch.SInv_apply; assumption|].
+    split; [exact Hw|]. split; [apply Irismod.Service.ProofsModuleHist.SInv_apply_m; assumption|].
     unfold exec_state. rewrite exec_svc by exact HI. cbn [snd]. split; [exact HI'|].
     intros id c0 x Hn Hg. rewrite (HA' id c0 x Hn Hg). apply Hag.
   - destruct Hwf as [Hno Hnew]. split; [unfold step_wfb; cbn [snd]; destruct o; try reflexivity; exfalso; eapply Hno; reflexivity|].
